@@ -6,9 +6,9 @@
 (***************************************************************************)
 EXTENDS Subst
 
-Fam(args, consts, fields, ops, maxops, maxleaves, maxdeg, manips, rkinds, peers, maxman, minman, nbad) ==
+Fam(args, consts, fields, ops, maxops, maxleaves, maxdeg, manips, rkinds, peers, maxman, minman, nbad, asgs) ==
     [args |-> args, consts |-> consts, fields |-> fields, ops |-> ops, maxops |-> maxops, maxleaves |-> maxleaves,
-     maxdeg |-> maxdeg, manips |-> manips, rkinds |-> rkinds, peers |-> peers, maxman |-> maxman, minman |-> minman, nbad |-> nbad]
+     maxdeg |-> maxdeg, manips |-> manips, rkinds |-> rkinds, peers |-> peers, maxman |-> maxman, minman |-> minman, nbad |-> nbad, asgs |-> asgs]
 
 AllOps == {"Add", "Mul", "Neg", "Pow", "Sum", "Take", "Dot", "Outer"}
 AllManips == {"Replace", "Lin", "Lin2", "Deriv", "Factor", "Int"}
@@ -19,29 +19,29 @@ AllArgs == 1..12
 \* ---- quick, exhaustive
 QuickFamilies == <<
   \* 1: every replacement kind (incl. refused ones) once, on every function with at most one operation over u, v
-  Fam({1, 2}, {4}, {}, {"Add", "Mul", "Pow"}, 1, 2, 3, {"Replace"}, AllKinds, {1, 2, 3}, 1, 1, 1),
+  Fam({1, 2}, {4}, {}, {"Add", "Mul", "Pow"}, 1, 2, 3, {"Replace"}, AllKinds, {1, 2, 3}, 1, 1, 1, {1, 2, 3}),
   \* 2: two manipulations out of renamings / linearize / derivative / factor on powers and products of u
-  Fam({1}, {}, {}, {"Mul", "Pow"}, 1, 2, 3, {"Replace", "Lin", "Deriv", "Factor"}, Renamings, {1, 2, 3}, 2, 2, 0),
+  Fam({1}, {}, {}, {"Mul", "Pow"}, 1, 2, 3, {"Replace", "Lin", "Deriv", "Factor"}, Renamings, {1, 2, 3}, 2, 2, 0, {1, 2, 3}),
   \* 3: matrices and scalars: m @ u, sum, take, outer with one manipulation of every kind
   Fam({1, 4, 7}, {6}, {}, {"Mul", "Dot", "Sum", "Take", "Outer"}, 1, 2, 3, {"Replace", "Lin", "Lin2", "Deriv", "Factor"},
-      {"arg", "const", "scale", "sq", "contract", "swap", "bad"}, {1, 2, 4, 5, 7, 8}, 1, 1, 1),
+      {"arg", "const", "scale", "sq", "contract", "swap", "bad"}, {1, 2, 4, 5, 7, 8}, 1, 1, 1, {1, 2, 3}),
   \* 4: integrands on the mesh: field(X) (* s) (** 2, 3), one manipulation before or after integration
   Fam({4}, {}, {9}, {"Mul", "Pow"}, 1, 2, 3, {"Replace", "Lin", "Deriv", "Factor", "Int"},
-      {"arg", "const", "scale", "swap"}, {4, 5, 9, 10}, 2, 2, 1),
+      {"arg", "const", "scale", "swap"}, {4, 5, 9, 10}, 2, 2, 1, {1, 2, 3}),
   \* 5: integer arguments
-  Fam({11, 4}, {8}, {}, {"Mul", "Add", "Pow"}, 1, 2, 3, {"Replace"}, {"id", "arg", "const", "scale", "self", "swap", "bad"}, {11, 12, 4, 5}, 1, 0, 2)
+  Fam({11, 4}, {8}, {}, {"Mul", "Add", "Pow"}, 1, 2, 3, {"Replace"}, {"id", "arg", "const", "scale", "self", "swap", "bad"}, {11, 12, 4, 5}, 1, 0, 2, {1, 2, 3})
 >>
 
 \* ---- small instance for the spec mutants (must violate an invariant)
 MutantFamilies == <<
-  Fam({1, 2}, {}, {}, {"Mul", "Pow"}, 1, 2, 3, {"Replace", "Lin", "Deriv", "Factor"}, Renamings, {1, 2, 3}, 2, 1, 0)
+  Fam({1, 2}, {}, {}, {"Mul", "Pow"}, 1, 2, 3, {"Replace", "Lin", "Deriv", "Factor"}, Renamings, {1, 2, 3}, 2, 1, 0, {1, 2, 3})
 >>
 
 \* ---- simulation: everything, deeper
 SimFamilies == <<
-  Fam({1, 2, 4, 7}, {1, 4, 6}, {}, AllOps, 4, 4, 4, AllManips, AllKinds, {1, 2, 3, 4, 5, 6, 7, 8}, 4, 1, 5),
-  Fam({4, 9}, {2, 7}, {9, 10}, {"Add", "Mul", "Pow", "Neg", "Sum", "Take", "Dot"}, 3, 3, 4, AllManips, AllKinds \ {"bad"}, {4, 5, 6, 9, 10}, 4, 1, 3),
-  Fam({1, 2, 3, 4, 5}, {2, 5}, {}, {"Add", "Mul", "Pow", "Neg", "Dot", "Sum"}, 3, 4, 4, {"Replace", "Factor", "Lin", "Deriv"}, AllKinds \ {"bad"}, {1, 2, 3, 4, 5, 6}, 5, 2, 2),
-  Fam({4, 11, 12, 1}, {8, 1, 9}, {}, {"Add", "Mul", "Pow", "Neg"}, 3, 3, 4, {"Replace", "Lin", "Deriv"}, AllKinds, {1, 2, 4, 5, 11, 12}, 3, 1, 2)
+  Fam({1, 2, 4, 7}, {1, 4, 6}, {}, AllOps, 4, 4, 4, AllManips, AllKinds, {1, 2, 3, 4, 5, 6, 7, 8}, 4, 1, 5, {1, 2, 3}),
+  Fam({4, 9}, {2, 7}, {9, 10}, {"Add", "Mul", "Pow", "Neg", "Sum", "Take", "Dot"}, 3, 3, 4, AllManips, AllKinds \ {"bad"}, {4, 5, 6, 9, 10}, 4, 1, 3, {1, 2, 3}),
+  Fam({1, 2, 3, 4, 5}, {2, 5}, {}, {"Add", "Mul", "Pow", "Neg", "Dot", "Sum"}, 3, 4, 4, {"Replace", "Factor", "Lin", "Deriv"}, AllKinds \ {"bad"}, {1, 2, 3, 4, 5, 6}, 5, 2, 2, {1, 2, 3}),
+  Fam({4, 11, 12, 1}, {8, 1, 9}, {}, {"Add", "Mul", "Pow", "Neg"}, 3, 3, 4, {"Replace", "Lin", "Deriv"}, AllKinds, {1, 2, 4, 5, 11, 12}, 3, 1, 2, {1, 2, 3})
 >>
 =============================================================================
